@@ -180,7 +180,7 @@ class Topo:
                 doc = json.loads(p.stdout)
             except Exception:
                 doc = None
-        return {"rc": p.returncode, "doc": doc, "stderr": p.stderr[-1500:], "wall": time.time() - t0, "cmd": " ".join(cmd),
+        return {"rc": p.returncode, "doc": doc, "stderr": p.stderr[-1500:], "stderr_full": p.stderr[:6000], "wall": time.time() - t0, "cmd": " ".join(cmd),
                 "race": "WARNING: DATA RACE" in p.stderr or p.returncode == 66, "race_report": p.stderr[:2500] if "DATA RACE" in p.stderr else ""}
 
 
@@ -215,7 +215,8 @@ def check_result(t, proto, method, max_ttl, queries, e2e, res):
             bad.append("method sack succeeded although the target cannot do SACK (port_open=%s tcp_sack_off=%s)" % (spec.get("port_open"), spec.get("tcp_sack_off")))
         return bad
     if res["rc"] != 0 or res["doc"] is None:
-        bad.append("CLI failed (rc=%s): %s" % (res["rc"], res["stderr"][-600:]))
+        errl = [l for l in res.get("stderr_full", "").splitlines() if l.startswith("Error")][:1]
+        bad.append("CLI failed (rc=%s): %s" % (res["rc"], errl[0][:600] if errl else res["stderr"][-600:]))
         return bad
     doc = res["doc"]
     v6 = proto.endswith("6")
@@ -283,6 +284,32 @@ def run_topology(idx, spec):
             # A mismatch is reported only if it repeats in 3 of 3 attempts (a defect in the tool is deterministic
             # for a given topology; packet loss under load is not). Retries are counted in the evidence.
             cli_failed = (res["rc"] != 0 and not (proto == "tcp" and method == "sack")) or RACE
+            # "the target acknowledged without SACK blocks" contradicts a topology whose target has SACK enabled, and
+            # neither loss nor load makes a Linux receiver answer an in-window out-of-order byte like that; it is what
+            # a probe outside the connection's window gets. It may show in a fraction of the runs only (it needs another
+            # connection's SYN-ACK to be captured first), so it is sampled: reported when it shows again in 6 more attempts.
+            sack_ok = spec.get("port_open") and not spec.get("tcp_sack_off") and not spec.get("dest_filtered")
+            claims_no_sack = lambda r: r["rc"] != 0 and "no SACK options" in r.get("stderr_full", "")
+            if proto == "tcp" and method == "sack" and sack_ok and not RACE and spec["queries"] > 1 and not bad:
+                # several SACK runs to one target at once: whether a run meets a foreign SYN-ACK first is a matter of
+                # timing, so a clean first attempt is followed by two more looks
+                for _ in range(2):
+                    r2 = t.trace(proto, method, max_ttl, spec["queries"], spec["e2e"], spec["timeout_ms"])
+                    attempts += 1
+                    if claims_no_sack(r2):
+                        res, bad = r2, check_result(t, proto, method, max_ttl, spec["queries"], spec["e2e"], r2)
+                        break
+            if proto == "tcp" and method == "sack" and sack_ok and not RACE and claims_no_sack(res):
+                seen, total = 1, 1
+                for _ in range(6):
+                    r2 = t.trace(proto, method, max_ttl, spec["queries"], spec["e2e"], max(spec["timeout_ms"], 500))
+                    total += 1
+                    attempts += 1
+                    if claims_no_sack(r2):
+                        seen += 1
+                if seen >= 2:
+                    bad = ["in %d of %d attempts the tool reported that the target acknowledges without SACK blocks, but the target's kernel has SACK enabled and the port is open (that is how a receiver answers a probe outside the connection's window)" % (seen, total)]
+                    cli_failed = True
             while bad and attempts < 3 and not cli_failed:
                 attempts += 1
                 time.sleep(0.2)
@@ -355,11 +382,11 @@ def main():
         specs = [ff["scenario"]]
     else:
         rng = random.Random(SEED * 7919 + 13)
-        n = 6 if TIER == "quick" else 60
+        n = 7 if TIER == "quick" else 60
         n = int(os.environ.get("VERIF_C13_TOPOLOGIES", n))
         specs = [gen_spec(rng, i) for i in range(n)]
         # always include the fixed regression shapes
-        specs[0] = {"routers": 3, "port": 443, "port_open": True, "tcp_sack_off": False, "silent": [2], "max_ttl_delta": 1, "queries": 2, "e2e": 2,
+        specs[0] = {"routers": 3, "port": 443, "port_open": True, "tcp_sack_off": False, "silent": [2], "max_ttl_delta": 1, "queries": 3, "e2e": 2,
                     "protos": ["icmp", "udp", "tcp:syn", "tcp:sack", "tcp:prefer_sack", "icmp6", "udp6"], "timeout_ms": 500, "concurrent_cli": False}
         if len(specs) > 1:
             specs[1] = {"routers": 2, "port": 8080, "port_open": True, "tcp_sack_off": True, "silent": [], "max_ttl_delta": 0, "queries": 1, "e2e": 1,
@@ -367,6 +394,10 @@ def main():
         if len(specs) > 3:
             specs[3] = {"routers": 2, "port": 443, "port_open": True, "tcp_sack_off": False, "silent": [], "max_ttl_delta": 1, "queries": 1, "e2e": 1, "dest_filtered": True,
                         "protos": ["tcp:prefer_sack", "tcp:sack", "tcp:syn", "udp", "icmp"], "timeout_ms": 300, "concurrent_cli": False}
+        if len(specs) > 4:
+            # several SACK runs to one target and nothing else going on: every capture handle sees every run's SYN-ACK
+            specs[4] = {"routers": 2, "port": 443, "port_open": True, "tcp_sack_off": False, "silent": [], "max_ttl_delta": 1, "queries": 3, "e2e": 0,
+                        "protos": ["tcp:sack", "tcp:prefer_sack", "tcp:sack"], "timeout_ms": 500, "concurrent_cli": False}
         if len(specs) > 2:
             specs[2] = {"routers": 4, "port": 80, "port_open": False, "tcp_sack_off": False, "silent": [1, 3], "max_ttl_delta": -1, "queries": 3, "e2e": 1,
                         "protos": ["tcp:syn", "tcp:prefer_sack", "icmp", "udp"], "timeout_ms": 300, "concurrent_cli": False}
